@@ -43,6 +43,8 @@ ERR_PATTERNS = [
 
 def canon_err(e):
     msg = str(e)
+    if isinstance(e, TypeError) and "arg1" in msg:
+        return "noParams"        # nothing left to fit: curve(x, *popt) with popt = []
     if isinstance(e, ValueError):
         for pat, kind in ERR_PATTERNS:
             if pat in msg:
@@ -602,23 +604,26 @@ SEARCH_CLASSES = ["Gaussian", "Exponential", "Matern", "Stable", "Rational", "Sp
 TPL_FACTOR = ("TPLGaussian", "TPLExponential", "TPLStable")      # classes with a variance factor
 
 
-class RecordingCurveFit:
-    """wraps the real scipy curve_fit and records every curve evaluation (an observer, not a replacement)"""
+class Recorder:
+    """observes the real run (nothing is replaced): every evaluation of the curve closure — those made by scipy
+    and any made by fit_variogram itself afterwards — and what curve_fit received / returned"""
 
-    def __init__(self, orig):
-        self.orig, self.evals, self.popt, self.p0, self.bounds = orig, [], None, None, None
+    def __init__(self, orig_curve_fit, orig_get_curve):
+        self.orig_curve_fit, self.orig_get_curve = orig_curve_fit, orig_get_curve
+        self.evals, self.popt, self.p0, self.bounds = [], None, None, None
 
-    def __call__(self, **kw):
-        f = kw["f"]
+    def get_curve(self, *a, **k):
+        f = self.orig_get_curve(*a, **k)
         evals = self.evals
 
-        def g(x, *args):
-            evals.append(tuple(float(a) for a in args))
-            return f(x, *args)
-        kw = dict(kw)
-        kw["f"] = g
+        def curve(x, arg1, *args):
+            evals.append(tuple(float(v) for v in (arg1,) + args))
+            return f(x, arg1, *args)
+        return curve
+
+    def curve_fit(self, **kw):
         self.p0, self.bounds = [float(v) for v in kw["p0"]], kw["bounds"]
-        popt, pcov = self.orig(**kw)
+        popt, pcov = self.orig_curve_fit(**kw)
         self.popt = [float(v) for v in popt]
         return popt, pcov
 
@@ -626,9 +631,9 @@ class RecordingCurveFit:
 def real_fit(model, x, y, **kw):
     """run the real fit_variogram with the real scipy optimiser; returns (result or exception, recorder)"""
     import gstools.covmodel.fit as fitmod
-    rec = RecordingCurveFit(fitmod.curve_fit)
-    orig = fitmod.curve_fit
-    fitmod.curve_fit = rec
+    rec = Recorder(fitmod.curve_fit, fitmod._get_curve)
+    o1, o2 = fitmod.curve_fit, fitmod._get_curve
+    fitmod.curve_fit, fitmod._get_curve = rec.curve_fit, rec.get_curve
     try:
         with warnings.catch_warnings():
             warnings.simplefilter("ignore")
@@ -637,7 +642,7 @@ def real_fit(model, x, y, **kw):
             except Exception as e:  # noqa
                 return e, rec
     finally:
-        fitmod.curve_fit = orig
+        fitmod.curve_fit, fitmod._get_curve = o1, o2
 
 
 def eps_close(a, b, ulps=8):
@@ -688,7 +693,10 @@ def check_fit(model, cfg, ret, rec, pre_state, viol, stats):
     for k, v in d.items():
         mv = getattr(model, k)
         if not np.array_equal(np.asarray(v, dtype=float), np.asarray(mv, dtype=float)):
-            if tpl and k == "var":
+            if tpl and k == "var" and eps_close(v, mv, 4):
+                # IEEE rounding of `_var = var / var_factor(); var = _var * var_factor()`: out of scope of the real-number theorems
+                stats["tpl-var-roundoff(<=4ulp)"] = stats.get("tpl-var-roundoff(<=4ulp)", 0) + 1
+            elif tpl and k == "var":
                 d9("tpl-dict-ne-model", "returned dict['var'] differs from model.var", dict_val=float(v), model_val=float(mv))
             else:
                 report("fit:dict-ne-model:" + k, f"returned dict[{k!r}] differs from the model attribute", dict_val=np.asarray(v, float).tolist(), model_val=np.asarray(mv, float).tolist())
@@ -711,10 +719,10 @@ def check_fit(model, cfg, ret, rec, pre_state, viol, stats):
             continue
         got = float(getattr(model, k))
         if got != expect:
-            if tpl and k == "var":
+            if tpl and k == "var" and eps_close(got, expect, 4):
+                stats["tpl-var-roundoff(<=4ulp)"] = stats.get("tpl-var-roundoff(<=4ulp)", 0) + 1
+            elif tpl and k == "var":
                 d9("tpl-var-deselected", "deselected/fixed variance of a TPL model changed", expected=expect, got=got)
-            elif eps_close(got, expect, 4) and tpl:
-                d9("tpl-var-deselected", f"deselected {k} changed", expected=expect, got=got)
             else:
                 report("fit:untouched:" + k, f"deselected/fixed parameter {k} changed", expected=expect, got=got)
     if cfg["is_dir"] and cfg["anis_mode"] != "fit":
@@ -753,10 +761,21 @@ def check_fit(model, cfg, ret, rec, pre_state, viol, stats):
         err = float(np.max(np.abs(curve - y)) / np.max(np.abs(y)))
         stats["max-curve-err"] = max(stats.get("max-curve-err", 0.0), err)
         stats["min-r2"] = min(stats.get("min-r2", 1.0), float(r2))
-        stats.setdefault("_r2s", []).append((float(r2), err, cls, bool(cfg["identifiable"]), rec.p0, [cfg["start"].get(k) for k in fitted] if "start" in cfg else None))
-        if not (r2 > 1 - 1e-6) or err > 1e-3:
-            report("fit:recovery:" + cls, "noise-free data of the same family, start near the truth: generating curve not recovered", r2=float(r2), max_rel_curve_err=err)
-        elif cfg["identifiable"]:
+        if not (r2 > 1 - 1e-3) or err > 2e-2:
+            # was the requested start (a value on a closed bound, e.g. nugget = 0) replaced by _init_guess?
+            replaced = None
+            if "start" in cfg and rec.p0 is not None and len(rec.p0) >= len(fitted):
+                for i, k in enumerate(fitted):
+                    b = list(model.arg_bounds[k])
+                    st = cfg["start"].get(k)
+                    if st is not None and st in (b[0], b[1]) and rec.p0[i] != st:
+                        replaced = dict(parameter=k, requested=st, p0=rec.p0[i], bounds=[b[0], b[1], b[2] if len(b) > 2 else "cc"])
+            if replaced is not None:
+                report("fit:init-guess-on-closed-bound:start-replaced", "start value on a closed bound replaced by the default guess; "
+                       "noise-free data of the same family not recovered", r2=float(r2), max_rel_curve_err=err, replaced=replaced)
+            else:
+                report("fit:recovery:" + cls, "noise-free data of the same family, start near the truth: generating curve not recovered", r2=float(r2), max_rel_curve_err=err)
+        elif cfg["identifiable"] and r2 > 1 - 1e-8:
             truth = cfg["truth"]
             for k in fitted:
                 if k in truth:
@@ -776,6 +795,66 @@ def snapshot(m):
     for o in m.opt_arg:
         st[o] = float(getattr(m, o))
     return st
+
+
+def build_from_cfg(cfg):
+    """(model, x, y, kwargs of fit_variogram) from the recorded description of a real-scipy case"""
+    import gstools as gs
+    cls = getattr(gs, cfg["cls"])
+    kw = {}
+    latlon = cfg["mode"] == "latlon"
+    if latlon:
+        kw = dict(latlon=True, geo_scale=cfg["geo_scale"])
+    start = cfg["start"]
+    opt = {k: v for k, v in start.items() if k not in ("var", "len_scale", "nugget")}
+    with warnings.catch_warnings():
+        warnings.simplefilter("ignore")
+        m = cls(dim=cfg["dim"], var=start["var"], len_scale=start["len_scale"], nugget=start["nugget"],
+                anis=cfg["start_anis"] if not latlon else 1.0, **opt, **kw)
+        if cfg.get("bounds"):
+            m.set_arg_bounds(**cfg["bounds"])
+    x = np.asarray(cfg["x"], float)
+    y = np.asarray(cfg["y"], float)
+    nb = len(x)
+    w = cfg.get("weights")
+    wobj = None
+    if w == "inv":
+        wobj = "inv"
+    elif w == "array":
+        wobj = 1.0 / (1.0 + np.arange(nb))
+    elif w == "callable":
+        wobj = (lambda xx: 1.0 / (1.0 + xx))
+    anis_arg = True if cfg["anis_mode"] == "fit" else (False if cfg["anis_mode"] == "off" else list(cfg["anis_value"]))
+    ig = cfg["init_guess"]
+    call = dict(anis=anis_arg, sill=cfg["sill"], init_guess=dict(ig) if isinstance(ig, dict) else ig, weights=wobj,
+                method=cfg["method"], loss=cfg["loss"], **cfg["sel"])
+    return m, x, y, call
+
+
+def run_cfg(cfg, viol, stats):
+    """run one recorded case on the real code and apply all property checks"""
+    m, x, y, call = build_from_cfg(cfg)
+    pre = snapshot(m)
+    if cfg["sill"] is False:
+        cfg["sill_value"] = float(m.sill)
+    ret, rec = real_fit(m, x, y, **call)
+    if isinstance(ret, Exception):
+        kind = canon_err(ret)
+        stats["exception:" + kind[:40]] = stats.get("exception:" + kind[:40], 0) + 1
+        msg = str(ret)
+        if kind in ("varGtSill", "nugGtSill"):
+            return        # documented errors (deselected var/nugget above the sill)
+        if "Residuals are not finite in the initial point" in msg and cfg["sill_value"] is not None:
+            key = "fit:sill-vs-bounds:initial-point-punished"
+        elif kind in ("bounds", "anisNonPos") and cfg["method"] == "dogbox":
+            key = "fit:dogbox-open-bound:setter-raises-during-fit"
+        elif kind == "bounds" and cfg["sill_value"] is not None and cfg.get("bounds"):
+            key = "fit:sill-vs-bounds:setter-raises-during-fit"
+        else:
+            key = "fit:exception:" + kind[:60]
+        viol.append({"key": key, "what": f"valid call raised {type(ret).__name__}: {msg[:200]}", "case": cfg})
+        return
+    check_fit(m, cfg, ret, rec, pre, viol, stats)
 
 
 def gen_real_case(rng, cls_name=None):
@@ -870,12 +949,8 @@ def gen_real_case(rng, cls_name=None):
             anis_mode, anis_arg, start_anis = "off", False, truth["anis"]
         elif r < 0.45:
             anis_mode, anis_arg, anis_value = "fixed", list(truth["anis"]), list(truth["anis"])
-    with warnings.catch_warnings():
-        warnings.simplefilter("ignore")
-        m = cls(dim=dim, var=start["var"], len_scale=start["len_scale"], nugget=start["nugget"],
-                anis=start_anis if mode != "latlon" else 1.0, **{o: start[o] for o in opt_names}, **kw)
     if sill_arg is False:
-        sill_value = float(m.sill)
+        sill_value = float(start["var"] + start["nugget"])
         if abs(sill_value - true_sill) > 1e-12:
             near = False        # the model's current sill is not the generating one: no recovery expected
     r = rng.rand()
@@ -907,8 +982,7 @@ def gen_real_case(rng, cls_name=None):
     cfg = dict(cls=cls_name, dim=dim, mode=mode, truth=truth, start=start, start_anis=start_anis, sel=sel, sill=sill_arg, sill_value=sill_value,
                anis_mode=anis_mode, anis_value=anis_value, init_guess=ig, weights=wdesc, method=method, loss=loss, noise=noise, near=near,
                x=x.tolist(), y=np.asarray(y).tolist(), is_dir=(mode == "dir"), identifiable=identifiable, geo_scale=kw.get("geo_scale"))
-    call = dict(anis=anis_arg, sill=sill_arg, init_guess=dict(ig) if isinstance(ig, dict) else ig, weights=wobj, method=method, loss=loss, **sel)
-    return m, x, y, cfg, call
+    return cfg
 
 
 def real_search(ctx, n, viol, stats):
@@ -916,31 +990,20 @@ def real_search(ctx, n, viol, stats):
     ev = 0
     for t in range(n):
         cls_name = SEARCH_CLASSES[t % len(SEARCH_CLASSES)]
-        m, x, y, cfg, call = gen_real_case(rng, cls_name)
-        pre = snapshot(m)
-        # what _pre_para is expected to leave for deselected parameters is the value before the call
-        ret, rec = real_fit(m, x, y, **call)
+        cfg = gen_real_case(rng, cls_name)
         ev += 1
         stats["class:" + cls_name] = stats.get("class:" + cls_name, 0) + 1
         stats["mode:" + cfg["mode"]] = stats.get("mode:" + cfg["mode"], 0) + 1
-        if isinstance(ret, Exception):
-            kind = canon_err(ret)
-            stats["exception:" + kind[:40]] = stats.get("exception:" + kind[:40], 0) + 1
-            msg = str(ret)
-            if kind in ("varGtSill", "nugGtSill"):
-                continue        # documented errors (deselected var/nugget above the sill)
-            if "Residuals are not finite in the initial point" in msg and cfg["sill_value"] is not None:
-                key = "fit:sill-vs-bounds:initial-point-punished"
-            elif kind == "bounds" and cfg["method"] == "dogbox":
-                key = "fit:dogbox-open-bound:setter-raises-during-fit"
-            elif "`x0` is infeasible" in msg or "x0" in msg:
-                key = "fit:exception:x0-infeasible"
-            else:
-                key = "fit:exception:" + kind[:60]
-            viol.append({"key": key, "what": f"valid call raised {type(ret).__name__}: {msg[:200]}", "case": cfg})
-            continue
-        check_fit(m, cfg, ret, rec, pre, viol, stats)
+        run_cfg(cfg, viol, stats)
     return ev
+
+
+def base_cfg(cls_name, truth, start, sel, sill, x, y, **kw):
+    cfg = dict(cls=cls_name, dim=2, mode="iso", truth=truth, start=start, start_anis=[1.0], sel=sel, sill=sill, sill_value=sill,
+               anis_mode="fit", anis_value=None, init_guess="current", weights=None, method="trf", loss="soft_l1", noise=0.0, near=True,
+               x=np.asarray(x).tolist(), y=np.asarray(y).tolist(), is_dir=False, identifiable=False, geo_scale=None)
+    cfg.update(kw)
+    return cfg
 
 
 def directed(ctx, viol, stats):
@@ -950,56 +1013,56 @@ def directed(ctx, viol, stats):
     x = np.linspace(0.5, 10.0, 12)
     # D9a: fixed sill, only the variance fitted
     for cls_name, ls in (("Exponential", 3.0), ("Gaussian", 2.0), ("Spherical", 4.0)):
-        cls = getattr(gs, cls_name)
         truth = dict(var=1.5, len_scale=ls, nugget=0.5)
-        y = cls(dim=2, **truth).variogram(x)
-        m = cls(dim=2, var=1.3, len_scale=ls, nugget=0.5)
-        sel = {"len_scale": False}
-        cfg = dict(cls=cls_name, dim=2, mode="iso", truth=truth, sel=sel, sill=2.0, sill_value=2.0, anis_mode="fit", anis_value=None,
-                   init_guess="current", weights=None, method="trf", loss="soft_l1", noise=0.0, near=True, x=x.tolist(), y=y.tolist(),
-                   is_dir=False, identifiable=True, directed="D9a")
-        pre = snapshot(m)
-        ret, rec = real_fit(m, x, y, sill=2.0, init_guess="current", **sel)
+        y = getattr(gs, cls_name)(dim=2, **truth).variogram(x)
+        cfg = base_cfg(cls_name, truth, dict(var=1.3, len_scale=ls, nugget=0.5), {"len_scale": False}, 2.0, x, y,
+                       identifiable=True, directed="D9a")
+        run_cfg(cfg, viol, stats)
         ev += 1
-        if isinstance(ret, Exception):
-            viol.append({"key": "fit:exception:directed-D9a", "what": str(ret), "case": cfg})
-        else:
-            check_fit(m, cfg, ret, rec, pre, viol, stats)
     # D9b: TPL model, variance deselected / tied to the sill by a deselected nugget
     for cls_name in TPL_FACTOR:
-        cls = getattr(gs, cls_name)
         truth = dict(var=1.5, len_scale=3.0, nugget=0.5)
-        y = cls(dim=2, **truth).variogram(x)
+        with warnings.catch_warnings():
+            warnings.simplefilter("ignore")
+            probe = getattr(gs, cls_name)(dim=2, **truth)
+        y = probe.variogram(x)
+        opts = {o: float(getattr(probe, o)) for o in probe.opt_arg}
         for sel, sill in (({"var": False}, None), ({"nugget": False}, 2.0)):
-            m = cls(dim=2, var=1.5, len_scale=2.7, nugget=0.5)
-            cfg = dict(cls=cls_name, dim=2, mode="iso", truth=truth, sel=sel, sill=sill, sill_value=sill, anis_mode="fit", anis_value=None,
-                       init_guess="current", weights=None, method="trf", loss="soft_l1", noise=0.0, near=True, x=x.tolist(), y=y.tolist(),
-                       is_dir=False, identifiable=False, directed="D9b")
-            pre = snapshot(m)
-            ret, rec = real_fit(m, x, y, sill=sill, init_guess="current", **sel)
+            cfg = base_cfg(cls_name, dict(truth, **opts), dict(var=1.5, len_scale=2.7, nugget=0.5, **opts), sel, sill, x, y, directed="D9b")
+            run_cfg(cfg, viol, stats)
             ev += 1
-            if isinstance(ret, Exception):
-                viol.append({"key": "fit:exception:directed-D9b", "what": str(ret), "case": cfg})
-            else:
-                check_fit(m, cfg, ret, rec, pre, viol, stats)
     # sill inside the admissible range of custom bounds, but the optimiser's box is [var_lo, sill] regardless of var_hi / nugget_hi
     truth = dict(var=1.5, len_scale=3.0, nugget=0.5)
     y = gs.Exponential(dim=2, **truth).variogram(x)
-    for bk, key in (({"var": [0.0, 1.0]}, "fit:sill-vs-bounds:setter-raises-during-fit"),
-                    ({"nugget": [0.0, 0.25]}, "fit:sill-vs-bounds:initial-point-punished")):
-        m = gs.Exponential(dim=2)
-        m.set_arg_bounds(**bk)
-        ret, rec = real_fit(m, x, y, sill=2.0)
+    for bk in ({"var": [0.0, 1.0]}, {"nugget": [0.0, 0.25]}):
+        cfg = base_cfg("Exponential", truth, dict(var=0.5, len_scale=1.0, nugget=0.125), {}, 2.0, x, y, init_guess="default",
+                       near=False, bounds=bk, directed="sill-vs-bounds")
+        run_cfg(cfg, viol, stats)
         ev += 1
-        cfg = dict(cls="Exponential", dim=2, bounds=bk, sill=2.0, x=x.tolist(), y=y.tolist(), directed="sill-vs-bounds")
-        if isinstance(ret, Exception):
-            viol.append({"key": key, "what": f"sill=2.0 is within [var_lo+nugget_lo, var_hi+nugget_hi] but the fit raises {type(ret).__name__}: {str(ret)[:160]}", "case": cfg})
-        else:
-            tot = float(m.var + m.nugget)
-            stats["sill-vs-bounds:ok"] = stats.get("sill-vs-bounds:ok", 0) + 1
-            if not eps_close(tot, 2.0, 4):
-                viol.append({"key": "fit:sill-identity", "what": "var + nugget != sill", "case": dict(cfg, tot=tot)})
     return ev
+
+
+def replay(ctx, payload):
+    """re-run the recorded failing inputs (real scipy) against the current tree"""
+    bad = 0
+    for v in payload.get("violations", []):
+        cfg = v.get("case", {})
+        if "start" not in cfg or "sel" not in cfg:
+            print("replay: case not re-executable:", v.get("key"))
+            continue
+        cfg = {k: cfg[k] for k in cfg if k not in ("popt", "last_eval", "n_eval")}
+        viol, stats = [], {}
+        run_cfg(dict(cfg), viol, stats)
+        keys = sorted(set(x["key"] for x in viol))
+        print(f"replay {v['key']}: now reports {keys}")
+        for x in viol:
+            if x["key"] == v["key"]:
+                extra = {k: x["case"].get(k) for k in ("sill", "var_plus_nugget", "diff", "dict_val", "model_val", "expected", "got", "popt", "last_eval") if k in x["case"]}
+                print("   ", x["what"], extra)
+        if v["key"] in keys:
+            bad += 1
+    print("VIOLATION reproduced" if bad else "not reproduced")
+    return 1 if bad else 0
 
 
 def search(ctx, deep=False):
